@@ -3,7 +3,7 @@
    not panic on reports whose decimals carry int32 exponents — which is what the outcome decoder produces, proved
    here (decoded_reports_wf) — and the external retirement-report codec does not panic. *)
 From stdpp Require Import gmap.
-From DS Require Import Base Decimal StreamValue Wire Sort Aggregators RepoConstants Outcome OutcomeCodec EvmCodecs EvmSpec PluginReports.
+From DS Require Import Base Decimal StreamValue Wire Sort Aggregators RepoConstants TextForms JsonReportBytes Outcome OutcomeCodec EvmCodecs EvmSpec PluginReports.
 From DS Require Import BaseProofs WireProofs OutcomeCodecProofs NoPanicProofs EvmIntProofs EvmCodecProofs.
 From Coq Require Import Lia.
 Open Scope Z_scope.
@@ -223,16 +223,31 @@ End Reports.
 
 (* ---------- instance: the in-repo EVM codecs (options parsed from the definition by any function) ---------- *)
 Section RepoCodecs.
-  Context (fmt_legacy fmt_unpacked fmt_streamlined : Z).
+  Context (fmt_legacy fmt_unpacked fmt_streamlined fmt_json : Z) (digest : bytes).
   Context (legacy_opts_of : chandef -> option legacy_opts) (unpacked_opts_of : chandef -> option unpacked_opts)
           (streamlined_opts_of : chandef -> option streamlined_opts).
   Context (retire_enc : gmap Z Z -> res (list Z)) (retire_total : forall va, is_panic (retire_enc va) = false).
   Hypothesis widths : EvmIntProofs.widths_complete.
 
+  (* JSONReportCodec.Encode: the report struct (with the plugin's config digest and the round's sequence number) to JSON bytes *)
+  Context (seq_for_json : Z).
+  Definition json_codec_encode (dg : bytes) (sq : Z) (r : report) : res (list Z) :=
+    match json_encode {| f_digest := dg; f_seq := sq; f_chan := r_chan r; f_va := r_va r; f_ts := r_ts r;
+                         f_values := r_values r; f_specimen := r_specimen r |} with
+    | Ok j => Ok (json_report_bytes j) | Err e => Err e | Panic s => Panic s end.
+  Lemma typed_all_no_panic vs : is_panic (typed_all vs) = false.
+  Proof. induction vs as [|[v|] vs IH]; cbn [typed_all]; try reflexivity. destruct (typed_all vs); try discriminate; reflexivity. Qed.
+  Lemma json_codec_no_panic dg sq r : is_panic (json_codec_encode dg sq r) = false.
+  Proof.
+    unfold json_codec_encode, json_encode. cbn [f_values]. pose proof (typed_all_no_panic (r_values r)) as H.
+    destruct (typed_all (r_values r)); try discriminate; reflexivity.
+  Qed.
+
   Definition repo_codecs (fmt : Z) : option (chandef -> report -> res (list Z)) :=
     if fmt =? fmt_legacy then Some (fun cd r => legacy_encode (legacy_opts_of cd) r)
     else if fmt =? fmt_unpacked then Some (fun cd r => unpacked_encode (unpacked_opts_of cd) r)
     else if fmt =? fmt_streamlined then Some (fun cd r => streamlined_encode (streamlined_opts_of cd) fmt r)
+    else if fmt =? fmt_json then Some (fun _ r => json_codec_encode digest seq_for_json r)
     else None.
   (* outside known finding F4: no premium-legacy / ABI-unpacked report whose fee division leaves int32 *)
   Definition outside_f4 (r : report) : Prop :=
@@ -253,7 +268,8 @@ Section RepoCodecs.
       + inversion Hc; subst enc. destruct (unpacked_encode (unpacked_opts_of (r_def r)) r) as [b|e|s] eqn:El; try reflexivity.
         exfalso. destruct (unpacked_panic_only_F4 widths _ _ _ Hwf El) as (o' & Ho & Hf4).
         assert (fmt = fmt_unpacked) by lia. rewrite (Hg2 ltac:(congruence) o' Ho) in Hf4. discriminate.
-      + destruct (fmt =? fmt_streamlined); [|discriminate]. inversion Hc; subst enc.
-        apply (streamlined_no_panic widths). exact Hwf.
+      + destruct (fmt =? fmt_streamlined).
+        * inversion Hc; subst enc. apply (streamlined_no_panic widths). exact Hwf.
+        * destruct (fmt =? fmt_json); [|discriminate]. inversion Hc; subst enc. apply json_codec_no_panic.
   Qed.
 End RepoCodecs.
